@@ -5,6 +5,7 @@
 package main
 
 import (
+	"bytes"
 	"bufio"
 	"encoding/hex"
 	"encoding/json"
@@ -83,6 +84,13 @@ func RunGo(c Case) (res string) {
 		args[i] = append([]byte{}, a...)
 	}
 	outs, err := f(args)
+	for i := range args {
+		// no entry point writes into its input (a write past the end of an inner value lands in the octets that
+		// follow it in the datagram, and shows up here as a changed input)
+		if !bytes.Equal(args[i], c.Args[i]) {
+			return "input-modified"
+		}
+	}
 	if err != nil {
 		return "err"
 	}
@@ -262,6 +270,14 @@ func main() {
 	if len(os.Args) < 5 {
 		fmt.Fprintln(os.Stderr, "usage: harness <prop> <tier> <seed> <outdir> | harness replay <caseline>")
 		os.Exit(2)
+	}
+	if os.Args[1] == "probe" {
+		// harness probe x x <outfile>
+		if err := runProbe(os.Args[4]); err != nil {
+			fmt.Fprintln(os.Stderr, err)
+			os.Exit(2)
+		}
+		return
 	}
 	if os.Args[1] == "replay" {
 		// harness replay x x x "<entry> <hex> ..."
